@@ -53,12 +53,12 @@ def psi_of(ub, P):
     return pseudo(n, s, P).get("psi", float("nan"))
 
 
-def construct_request(rng, ub, tr):
+def construct_request(rng, ub, tr, P0=None):
     """a physical position P satisfying an instance of mode `tr`, the constraint values read off P, and hkl = fwd(P).
     Void / bisect / omega modes: P (and for a_eq_b / bin_eq_bout the vectors of a *copy* of ub) are constructed to satisfy them.
     returns (ub', vals, hkl, P) or None"""
     import copy
-    P = [rng.uniform(-179, 179) for _ in range(6)]
+    P = list(P0) if P0 is not None else [rng.uniform(-179, 179) for _ in range(6)]
     ub2 = ub
     om = None
     if "bisect" in tr:
@@ -183,6 +183,38 @@ def degenerate_requests(rng, n):
             out.append((ub, {"delta": 0.0, "eta": 0.0, "mu": x}, (h, k, 0.0), 1.0, fam))
     return out
 
+
+
+def exact_ttheta_requests(rng, per_mode):
+    """requests whose Bragg angle is exactly 2theta = 90 (or 60 / 120): wavelength = 2 d sin(theta); constraint values generic and special.
+    Exact two-theta values are where the detector layers take their `is_small` shortcuts."""
+    out = []
+    for tr in modes():
+        for _ in range(per_mode):
+            ub, kind = rand_ub(rng, rng.choice(["triclinic", "cubicI", "ortho-lab"]))
+            hkl = tuple(float(x) for x in rng.choice([(1, 0, 0), (0, 0, 1), (1, 1, 0), (1, 0.5, 1), (0, 1, 1)]))
+            B = np.asarray(ub.crystal.B, float)
+            d = 2 * pi / np.linalg.norm(B @ np.array(hkl))
+            tth = rng.choice([90.0, 90.0, 60.0, 120.0])
+            wl = 2 * d * sin(radians(tth / 2))
+            vals = {nm: (True if nm in VOID else float(rng.choice([25.0, -40.0, 0.0, 90.0, rng.uniform(-80, 80)]))) for nm in tr}
+            out.append((ub, vals, hkl, wl, f"exact-2theta-{int(tth)}"))
+    return out
+
+
+def semi_special_position(rng):
+    """a position with one to four axes at exactly 0 / +-90 / 180 and the others generic (incl. the 4-circle sub-geometries mu = nu = 0 and
+    delta = eta = 0 with chi = 0 / 90)"""
+    P = [rng.uniform(-170, 170) for _ in range(6)]
+    fam = rng.choice(["vertical", "horizontal", "random", "random"])
+    if fam == "vertical":        # mu = nu = 0, chi in {0, 90, 180, generic}
+        P[0] = 0.0; P[2] = 0.0; P[4] = rng.choice([0.0, 0.0, 90.0, 180.0, P[4]]); P[1] = rng.uniform(10, 120)
+    elif fam == "horizontal":    # delta = eta = 0, chi = 90
+        P[1] = 0.0; P[3] = 0.0; P[4] = rng.choice([90.0, 90.0, -90.0, P[4]]); P[2] = rng.uniform(10, 120)
+    else:
+        for i in rng.sample(range(6), rng.randint(1, 3)):
+            P[i] = float(rng.choice([0, 90, -90, 180]))
+    return P
 
 
 def signature(res):
